@@ -118,13 +118,45 @@ def _helper_shape(fn):
             return ("expr", ast.BoolOp(op=ast.And(), values=[_negate(t), rest]))
         return ("expr", ast.BoolOp(op=ast.Or(), values=[t, rest]))
     rets = [n for st in body for n in ast.walk(st) if isinstance(n, ast.Return)]
-    if len(rets) > 1 or (rets and rets[0] is not body[-1]):
+    if len(rets) > 1:
+        # leading straight-line statements, then a cascade `if T1: return A1 [elif ..] ... return B`  ->  one conditional expression
+        k = 0
+        while k < len(body) and not _has(body[k], (ast.Return,)):
+            k += 1
+        e = _cascade(body[k:])
+        if e is None or any(_has(st, (ast.For, ast.While, ast.Try, ast.With)) for st in body[:k]):
+            return None
+        return ("stmts", body[:k], e) if k else ("expr", e)
+    if rets and rets[0] is not body[-1]:
         return None
     if len(body) == 1 and rets and rets[0].value is not None:
         return ("expr", rets[0].value)
     if rets:
         return ("stmts", body[:-1], rets[0].value)
     return ("stmts", body, None)
+
+
+def _cascade(stmts):
+    """expression equivalent to a statement list made only of `if T: <cascade>` [else: <cascade>] and a final `return E`"""
+    if not stmts:
+        return None
+    st = stmts[0]
+    if isinstance(st, ast.Return) and len(stmts) == 1:
+        return st.value if st.value is not None else ast.Constant(value=None)
+    if isinstance(st, ast.If):
+        a = _cascade(st.body)
+        if a is None:
+            return None
+        if st.orelse:
+            b = _cascade(st.orelse)
+            if b is None or len(stmts) != 1:
+                return None
+        else:
+            b = _cascade(stmts[1:])
+            if b is None:
+                return None
+        return ast.IfExp(test=st.test, body=a, orelse=b)
+    return None
 
 
 def _bind(call, fn, bound):
@@ -332,6 +364,12 @@ class _IfExpCall(ast.NodeTransformer):
         return node
 
 
+def _ifexp_calls(fnode, ref: dict) -> int:
+    ic = _IfExpCall()
+    ic.visit(fnode)
+    return ic.n
+
+
 def split_ifexp_statements(fnode, ref: dict) -> int:
     known = set(ref.get("ifexps", []))
     n = 0
@@ -366,8 +404,8 @@ def _pure(e) -> bool:
 def inline_new_locals(fnode, ref: dict) -> int:
     refl = set(ref.get("locals", []))
     cur = local_names(fnode)
-    unknown = [x for x in cur if x not in refl]
-    missing = [x for x in ref.get("locals", []) if x not in cur]
+    unknown = [x for x in cur if x not in refl and x != "_"]
+    missing = [x for x in ref.get("locals", []) if x not in cur and x != "_"]
     surplus = len(unknown) - len(missing)
     if surplus <= 0:
         return 0
@@ -388,8 +426,9 @@ def inline_new_locals(fnode, ref: dict) -> int:
         st, blk = by_name[nm][0]
         # exactly one binding of the name in the whole function (no loop target, augmented assignment, ...)
         stores = [n for n in ast.walk(fnode) if isinstance(n, ast.Name) and n.id == nm and isinstance(n.ctx, (ast.Store, ast.Del))]
-        if len(stores) != 1 or not _pure(st.value):
+        if len(stores) != 1:
             continue
+        impure = not _pure(st.value)
         free = {n.id for n in ast.walk(st.value) if isinstance(n, ast.Name)}
         i = blk.index(st)
         after = blk[i + 1:]
@@ -420,6 +459,18 @@ def inline_new_locals(fnode, ref: dict) -> int:
             continue
         if _has(st.value, (ast.Call,)) and len(uses) > 1:
             continue
+        if impure:
+            # a call with possible effects may only move into the very next statement, where it is evaluated first:
+            # the use must not sit behind another call, in a loop, or in a branch
+            nxt = after[0] if after else None
+            if last_k != 0 or nxt is None or isinstance(nxt, (ast.For, ast.While, ast.With, ast.Try)):
+                continue
+            holder = nxt.test if isinstance(nxt, ast.If) else nxt
+            if not any(n is uses[0] for n in ast.walk(holder)):
+                continue
+            first_call = next((n for n in ast.walk(holder) if isinstance(n, ast.Call)), None)
+            if first_call is not None and not any(n is uses[0] for n in ast.walk(first_call)) and isinstance(nxt, (ast.Assign, ast.Expr, ast.Return, ast.AugAssign)) is False:
+                continue
         sub = _Subst({nm: st.value})
         for k in range(i + 1, len(blk)):
             blk[k] = sub.visit(blk[k])
@@ -460,6 +511,90 @@ def ifexp_tests(fnode, ref: dict) -> int:
             n += 1
     if n:
         ast.fix_missing_locations(fnode)
+    return n
+
+
+# --------------------------------------------------------------------------------------------------- comprehensions <-> accumulation loops
+def _canon_comp(c):
+    from .normalise import canon
+    return canon(c)
+
+
+def expand_new_comprehensions(fnode, ref: dict) -> int:
+    """`x = [e for t in it if c]` (also dict / set, and `x.extend(<gen>)`) whose canonical text the reference does not know
+    -> `x = []` + accumulation loop, the form the reference most probably had"""
+    known = set(ref.get("scopes", {}))
+    if "scopes_all" in ref:
+        known |= set(ref["scopes_all"])
+    n = 0
+    for owner, fld, blk in _blocks(fnode):
+        i = 0
+        while i < len(blk):
+            st = blk[i]
+            comp, tgt, mode = None, None, None
+            if isinstance(st, ast.Assign) and len(st.targets) == 1 and isinstance(st.targets[0], ast.Name) and isinstance(st.value, (ast.ListComp, ast.SetComp, ast.DictComp)):
+                comp, tgt, mode = st.value, st.targets[0].id, "new"
+            elif isinstance(st, ast.Expr) and isinstance(st.value, ast.Call) and isinstance(st.value.func, ast.Attribute) and st.value.func.attr == "extend" and isinstance(st.value.func.value, ast.Name) \
+                    and len(st.value.args) == 1 and isinstance(st.value.args[0], (ast.GeneratorExp, ast.ListComp)):
+                comp, tgt, mode = st.value.args[0], st.value.func.value.id, "extend"
+            if comp is None or _canon_comp(comp) in known or any(isinstance(x, (ast.ListComp, ast.SetComp, ast.DictComp, ast.GeneratorExp)) and x is not comp for x in ast.walk(comp)):
+                i += 1
+                continue
+            if isinstance(comp, ast.DictComp):
+                inner = ast.Assign(targets=[ast.Subscript(value=ast.Name(id=tgt, ctx=ast.Load()), slice=comp.key, ctx=ast.Store())], value=comp.value)
+                init = ast.Dict(keys=[], values=[])
+            elif isinstance(comp, ast.SetComp):
+                inner = ast.Expr(value=ast.Call(func=ast.Attribute(value=ast.Name(id=tgt, ctx=ast.Load()), attr="add", ctx=ast.Load()), args=[comp.elt], keywords=[]))
+                init = ast.Call(func=ast.Name(id="set", ctx=ast.Load()), args=[], keywords=[])
+            else:
+                inner = ast.Expr(value=ast.Call(func=ast.Attribute(value=ast.Name(id=tgt, ctx=ast.Load()), attr="append", ctx=ast.Load()), args=[comp.elt], keywords=[]))
+                init = ast.List(elts=[], ctx=ast.Load())
+            body = [inner]
+            for g in reversed(comp.generators):
+                for c in reversed(g.ifs):
+                    body = [ast.If(test=c, body=body, orelse=[])]
+                body = [ast.For(target=g.target, iter=g.iter, body=body, orelse=[])]
+            new = ([ast.Assign(targets=[ast.Name(id=tgt, ctx=ast.Store())], value=init)] if mode == "new" else []) + body
+            for s_ in new:
+                ast.copy_location(s_, st)
+                ast.fix_missing_locations(s_)
+            blk[i:i + 1] = new
+            i += len(new)
+            n += 1
+    return n
+
+
+def contract_known_loops(fnode, ref: dict) -> int:
+    """`x = []` immediately followed by `for t in it: [if c:] x.append(e)` -> the comprehension, when the reference has it"""
+    known = set(ref.get("scopes", {})) | set(ref.get("scopes_all", []))
+    if not known:
+        return 0
+    n = 0
+    for owner, fld, blk in _blocks(fnode):
+        i = 0
+        while i + 1 < len(blk):
+            a, l = blk[i], blk[i + 1]
+            if isinstance(a, ast.Assign) and len(a.targets) == 1 and isinstance(a.targets[0], ast.Name) and isinstance(l, ast.For) and not l.orelse:
+                tgt = a.targets[0].id
+                empty_list = isinstance(a.value, ast.List) and not a.value.elts
+                empty_dict = isinstance(a.value, ast.Dict) and not a.value.keys
+                body, ifs = l.body, []
+                while len(body) == 1 and isinstance(body[0], ast.If) and not body[0].orelse:
+                    ifs.append(body[0].test)
+                    body = body[0].body
+                comp = None
+                if len(body) == 1 and empty_list and isinstance(body[0], ast.Expr) and isinstance(body[0].value, ast.Call) and _unparse(body[0].value.func) == f"{tgt}.append" and len(body[0].value.args) == 1:
+                    comp = ast.ListComp(elt=body[0].value.args[0], generators=[ast.comprehension(target=l.target, iter=l.iter, ifs=ifs, is_async=0)])
+                elif len(body) == 1 and empty_dict and isinstance(body[0], ast.Assign) and isinstance(body[0].targets[0], ast.Subscript) and _unparse(body[0].targets[0].value) == tgt:
+                    comp = ast.DictComp(key=body[0].targets[0].slice, value=body[0].value, generators=[ast.comprehension(target=l.target, iter=l.iter, ifs=ifs, is_async=0)])
+                if comp is not None:
+                    ast.copy_location(comp, a)
+                    ast.fix_missing_locations(comp)
+                    if _canon_comp(comp) in known:
+                        a.value = comp
+                        del blk[i + 1]
+                        n += 1
+            i += 1
     return n
 
 
